@@ -50,7 +50,9 @@ theorem leg_request2 (f f1 : Nat) (s : NetState) (L : LinkCfg) (Pm Px : List Byt
       NodeRadio L Pm true true 0x3E (s2.nodeAt m).rf (s2.radioAt m) ∧
       NodeRadio L Px true true 0x3E (s2.nodeAt x).rf (s2.radioAt x) ∧
       (s2.radioAt m).rxFifo = [] ∧ (s2.radioAt x).rxFifo = [] ∧
-      s2.ridAt m = s.ridAt m ∧ s2.ridAt x = s.ridAt x := by
+      s2.ridAt m = s.ridAt m ∧ s2.ridAt x = s.ridAt x ∧
+      (∃ pid1 pid2, (s2.radioAt m).lastRx = some { pid := pid1, addr := Am, data := pk } ∧
+        (s2.radioAt x).lastRx = some { pid := pid2, addr := Ax, data := pk' }) := by
   have hcl : s.cur < s.nodes.length := by rw [hcur, hlen]; exact hx
   have hnode : s.node = s.nodeAt x := by rw [node_eq_nodeAt, hcur]
   have hdrvr : s.drv.radio = s.radioAt x := by
@@ -267,7 +269,7 @@ theorem leg_request2 (f f1 : Nat) (s : NetState) (L : LinkCfg) (Pm Px : List Byt
     (by rw [s6node]; exact s5addr.symm) validDefault validDefault (by decide)
     (by rw [s6node]; rintro ⟨_, h⟩; exact h s5addr.symm) (fun h => absurd h.1 (by decide))
     (by rw [s6node]; exact s5ret) (by decide) (by decide)
-  refine ⟨(s5.afterRf D6).withFrame (respFrame fid i a), e1, ?_, ?_, ?_, ?_, ?_, ?_, ?_, ?_, ?_, ?_, ?_, ?_, ?_, ?_⟩
+  refine ⟨(s5.afterRf D6).withFrame (respFrame fid i a), e1, ?_, ?_, ?_, ?_, ?_, ?_, ?_, ?_, ?_, ?_, ?_, ?_, ?_, ?_, ?_⟩
   · rw [show f + 7 + m = f + 4 + 1 + m + 2 from by omega]; exact hnu
   · exact s5cur
   · exact s5act
@@ -328,6 +330,18 @@ theorem leg_request2 (f f1 : Nat) (s : NetState) (L : LinkCfg) (Pm Px : List Byt
     rw [rf_withFrame, ← s5cur, rf_afterRf_cur s5 D6 s5c, F6.rid]
     show s5.node.rf.rid = _
     rw [s5node, s5cur, s5xrf, r1, hnode]; rfl
+  · -- what each radio accepted last: the master's the request, the joiner's the response
+    refine ⟨pid1, pid2, ?_, ?_⟩
+    · have hne5 : m ≠ s5.cur := by rw [s5cur]; exact hmx
+      rw [radioAt_withFrame, radioAt_afterRf_ne _ _ _ hne5]
+      have hrm : s5.ridAt m = Db.d.rid := by show (s5.nodeAt m).rf.rid = _; rw [s5rf, sjmrf]
+      have hne6 : s5.ridAt m ≠ s5.drv.d.rid := by
+        show _ ≠ s5.node.rf.rid
+        rw [hrm, hDbrid, s5node, s5xrf, r1, hnode]; exact hridne
+      rw [F6.others _ hne6]
+      show (s5.radioAt m).lastRx = _
+      rw [s5radm, lrb, smrad]; rfl
+    · rw [radioAt_withFrame, ← s5cur, radioAt_afterRf_cur s5 D6 s5c, F6.lastRx, s5drvr, s5radx]; rfl
 
 
 /-! ### frames 1–4 through `_request_address(0)`, the rest as explicit hypotheses -/
@@ -361,7 +375,10 @@ theorem respFrame_wire (fid i a : Nat) (hi : i ≤ 255) (hfid : fid < 65536) :
   rfl
 
 /-- the state after frames 1–4 of a direct join (relative to the state `s` before `_request_address`):
-    the joiner holds the response offering `a`; the master has recorded the lease -/
+    the joiner holds the response offering `a`; the master has recorded the lease; each radio's
+    `lastRx` is the packet it accepted last (pid free).  Clocks, `busyUntil`, `nextId`, the air log
+    are not described: theorems that take the later legs as hypotheses therefore state them about the
+    run's own state, not about every state satisfying this predicate. -/
 structure AfterRequest (s : NetState) (L : LinkCfg) (Pm Px : List Bytes) (m x fid i a : Nat) (s3 : NetState) : Prop where
   cur : s3.cur = x
   active : s3.active = [x]
@@ -377,6 +394,12 @@ structure AfterRequest (s : NetState) (L : LinkCfg) (Pm Px : List Bytes) (m x fi
   fifoX : (s3.radioAt x).rxFifo = []
   ridM : s3.ridAt m = s.ridAt m
   ridX : s3.ridAt x = s.ridAt x
+  /-- what the master's radio accepted last is the address REQUEST (on its pipe 0) -/
+  lastM : ∃ pid A pk, Pm[0]? = some A ∧ (reqFrame fid i 0).pack = .ok pk ∧
+    (s3.radioAt m).lastRx = some { pid := pid, addr := A, data := pk }
+  /-- what the joiner's radio accepted last is the address RESPONSE (on its pipe 0) -/
+  lastX : ∃ pid A pk, Px[0]? = some A ∧ (respFrame fid i a).pack = .ok pk ∧
+    (s3.radioAt x).lastRx = some { pid := pid, addr := A, data := pk }
 
 theorem getLevel0 : getLevel 0 = 0 := by
   unfold getLevel
@@ -461,7 +484,7 @@ theorem frames_1_4 (s : NetState) (L : LinkCfg) (Pm Px : List Bytes) (m x fid r 
     (fun h => by
       have := congrArg (fun f : Frame => f.header.msgType) h
       simp [pollReply, respFrame, NETWORK_POLL, MESH_ADDR_RESPONSE] at this) hpk' hpq'
-  obtain ⟨sW, s3, eW, eN, c3, a3, n3, cl3, fl3, bx3, bm3, Nm3, Nx3, fm3, fx3, rm3, rx3⟩ :=
+  obtain ⟨sW, s3, eW, eN, c3, a3, n3, cl3, fl3, bx3, bm3, Nm3, Nx3, fm3, fx3, rm3, rx3, q1, q2, lrm, lrx⟩ :=
     leg_request2 (200000 - 7 - m) (200000 - 2) sB L Pm Px m x i a fid Am Ax pq pq'
       (by rw [← hsB]; simpa using n2) hm hx hmx sBcur (by rw [← hsB]; exact a2) (by rw [← hsB]; exact cl2)
       (by rw [← hsB]; exact fl2) (by omega) (by omega)
@@ -487,7 +510,8 @@ theorem frames_1_4 (s : NetState) (L : LinkCfg) (Pm Px : List Bytes) (m x fid r 
       (by rw [fieldM (·.cfg) (fun _ => rfl) (fun _ _ => rfl)]; exact hmcfg)
       (by rw [fieldM (·.dhcp) (fun _ => rfl) (fun _ _ => rfl)]; exact hfind) ha hi0 hi hfid hpq hpq'
   have hAR : AfterRequest s L Pm Px m x fid i a s3 := by
-    refine ⟨c3, a3, n3, cl3, fl3, ?_, ?_, Nm3, Nx3, fm3, fx3, ?_, ?_⟩
+    refine ⟨c3, a3, n3, cl3, fl3, ?_, ?_, Nm3, Nx3, fm3, fx3, ?_, ?_, ⟨q1, Am, pq, hAm, hpq, lrm⟩,
+      ⟨q2, Ax, pq', hAx, hpq', lrx⟩⟩
     · rw [bx3, sBx]
       have : ({ s2.nodeAt x with frameBuf := reqFrame fid i 0 } : Node).body =
           { (s2.nodeAt x).body with frameBuf := reqFrame fid i 0 } := rfl
@@ -501,13 +525,10 @@ theorem frames_1_4 (s : NetState) (L : LinkCfg) (Pm Px : List Bytes) (m x fid r 
   · rw [hsB, hF]; exact eW
   · rw [hF, show (200000 : Nat) = 200000 - 7 - m + 7 + m from by omega]; exact eN
 
-/-- **`_request_address(0)` of a direct join**, frames 1–4 proved (`leg_poll`, `leg_request2`), the two
-    remaining legs as hypotheses about the model: `Hb` — `_begin(a)` from the state after the
-    response ends normally, sets the address attribute and leaves the ID (`P4` = whatever else it
-    establishes); `Hc` — the double-check `lookup_node_id(a)` from any such state returns the ID
-    (`P5` = what it establishes).  Then `_request_address(0)` returns `True` in a state satisfying `P5`. -/
-theorem request_address_partial (s : NetState) (L : LinkCfg) (Pm Px : List Bytes) (m x fid r i a : Nat)
-    (Am Ax pk pk' pq pq' : Bytes) (P4 P5 : NetState → Prop)
+/-- frames 3–4 from the state after `_make_contact` (any `frame_buf` whose header carries the id `fid`):
+    `leg_request2` on the state with the request in `frame_buf`, with the model's own fuel `F` -/
+theorem frames_3_4 (s : NetState) (L : LinkCfg) (Pm Px : List Bytes) (m x fid i a : Nat)
+    (Am Ax pq pq' : Bytes)
     (hlen : s.nodes.length = 2) (hm : m < 2) (hx : x < 2) (hmx : m ≠ x)
     (hcur : s.cur = x) (hact : s.active = [x]) (hclosed : s.closed = true) (hfaults : s.w.faults = [])
     (hridm : s.ridAt m < s.w.radios.length) (hridx : s.ridAt x < s.w.radios.length)
@@ -515,56 +536,69 @@ theorem request_address_partial (s : NetState) (L : LinkCfg) (Pm Px : List Bytes
     (hNm : NodeRadio L Pm true true 0x3E (s.nodeAt m).rf (s.radioAt m))
     (hNx : NodeRadio L Px true true 0x3E (s.nodeAt x).rf (s.radioAt x))
     (hfm : (s.radioAt m).rxFifo = []) (hfx : (s.radioAt x).rxFifo = [])
-    (hdupm : ∀ pid, (s.radioAt m).lastRx ≠ some { pid := pid, addr := Am, data := pk })
-    (hdupx : ∀ pid, (s.radioAt x).lastRx ≠ some { pid := pid, addr := Ax, data := pk' })
+    (hdupm : ∀ pid, (s.radioAt m).lastRx ≠ some { pid := pid, addr := Am, data := pq })
+    (hdupx : ∀ pid, (s.radioAt x).lastRx ≠ some { pid := pid, addr := Ax, data := pq' })
     (harrm : (s.nodeAt m).arrivals = []) (harrx : (s.nodeAt x).arrivals = [])
     (hAm : Pm[0]? = some Am) (hAx : Px[0]? = some Ax)
-    (hxfid : (s.nodeAt x).frameBuf.header.frameId = fid) (hxres : (s.nodeAt x).frameBuf.header.reserved = r)
-    (hxid : (s.nodeAt x).nodeId = i)
     (hxaddr : (s.nodeAt x).a.addr = NETWORK_DEFAULT_ADDR)
     (hxret : (s.nodeAt x).retSysMsg = true) (hxcfg : pipeAddress (s.nodeAt x).cfg 0 0 = .ok Am)
     (hkind : (s.nodeAt m).kind = .meshMaster) (hid : (s.nodeAt m).nodeId = 0) (hmaddr : (s.nodeAt m).a.addr = 0)
-    (hmret : (s.nodeAt m).retSysMsg = true)
-    (hmmc : (s.nodeAt m).cfg.allowMulticast = true) (hmpar : (s.nodeAt m).parenthood = true)
-    (hdo : (s.nodeAt m).doDhcp = false)
+    (hmret : (s.nodeAt m).retSysMsg = true) (hdo : (s.nodeAt m).doDhcp = false)
     (hmcfg : pipeAddress (s.nodeAt m).cfg NETWORK_DEFAULT_ADDR 0 = .ok Ax)
     (hfind : dhcpFind (s.nodeAt m).dhcp i 0 0 (Mesh.MESH_MAX_CHILDREN + 1) = some a) (ha : a < 65536)
-    (hr : r ≤ 255) (hfid : fid < 65536) (hi0 : i ≠ 0) (hi : i ≤ 255)
-    (hpk : (pollFrame fid r).pack = .ok pk) (hpk' : (pollReply fid r 0).pack = .ok pk')
-    (hpq : (reqFrame fid i 0).pack = .ok pq) (hpq' : (respFrame fid i a).pack = .ok pq')
-    (Hb : ∀ s3, AfterRequest s L Pm Px m x fid i a s3 →
-      ∃ s4, nexec (begin a) s3 = (.ok (), s4) ∧ s4.node.a.addr = a ∧ s4.node.nodeId = i ∧ P4 s4)
-    (Hc : ∀ s4, P4 s4 → ∃ s5, nexec (meshLookupNodeId (some (a : Int))) s4 = (.ok (i : Int), s5) ∧ P5 s5) :
-    ∃ s5, nexec (requestAddress 0) s = (.ok true, s5) ∧ P5 s5 := by
-  obtain ⟨s2, sW, s3, eP, c2, n2, bx2, eW, eN, hAR⟩ := frames_1_4 s L Pm Px m x fid r i a Am Ax pk pk' pq pq'
-    hlen hm hx hmx hcur hact hclosed hfaults hridm hridx hridne hNm hNx hfm hfx hdupm hdupx harrm harrx hAm hAx
-    hxfid hxres hxid hxaddr hxret hxcfg hkind hid hmaddr hmret hmmc hmpar hdo hmcfg hfind ha hr hfid hi0 hi
-    hpk hpk' hpq hpq'
-  have s2c : s2.cur < s2.nodes.length := by rw [c2, n2]; exact hx
-  have s2node : s2.node = s2.nodeAt x := by rw [node_eq_nodeAt, c2]
-  have s2fb : s2.node.frameBuf = pollReply fid r 0 := by
-    have : s2.node.frameBuf = (s2.nodeAt x).body.frameBuf := by rw [s2node]; rfl
-    rw [this, bx2]
-  have s2id : s2.node.nodeId = i := by
-    have : s2.node.nodeId = (s2.nodeAt x).body.nodeId := by rw [s2node]; rfl
-    rw [this, bx2]; exact hxid
-  generalize hsB : s2.withFrame (reqFrame fid i 0) = sB at eW
-  have c3 := hAR.cur
-  have bx3 := hAR.joiner
+    (hi0 : i ≠ 0) (hi : i ≤ 255) (hfid : fid < 65536)
+    (hpq : (reqFrame fid i 0).pack = .ok pq) (hpq' : (respFrame fid i a).pack = .ok pq') :
+    ∃ sW s3 : NetState,
+      nexec (nodeWrite F 0 TX_PHYSICAL) (s.withFrame (reqFrame fid i 0)) = (.ok true, sW) ∧
+      nexec (netUpdate F 0) sW = (.ok MESH_ADDR_RESPONSE, s3) ∧
+      AfterRequest s L Pm Px m x fid i a s3 := by
   have hF : F = 200000 := rfl
-  obtain ⟨s4, eB, hb1, hb2, hP4⟩ := Hb s3 hAR
-  obtain ⟨s5, eC, hP5⟩ := Hc s4 hP4
-  have s3node : s3.node = s3.nodeAt x := by rw [node_eq_nodeAt, c3]
-  have s3fb : s3.node.frameBuf = respFrame fid i a := by
-    have : s3.node.frameBuf = (s3.nodeAt x).body.frameBuf := by rw [s3node]; rfl
-    rw [this, bx3]
-  have s3id : s3.node.nodeId = i := by
-    have : s3.node.nodeId = (s3.nodeAt x).body.nodeId := by rw [s3node]; rfl
-    rw [this, bx3]; exact hxid
-  refine ⟨s5, ?_, hP5⟩
-  unfold requestAddress
-  rw [nexec_bind, eP]
-  simp only [List.isEmpty_cons, Bool.false_eq_true, if_false]
+  have sc : s.cur < s.nodes.length := by rw [hcur, hlen]; exact hx
+  have snode : s.node = s.nodeAt x := by rw [node_eq_nodeAt, hcur]
+  generalize hsB : s.withFrame (reqFrame fid i 0) = sB
+  have sBcur : sB.cur = x := by rw [← hsB]; exact hcur
+  have sBm : sB.nodeAt m = s.nodeAt m := by
+    rw [← hsB]; exact nodeAt_withFrame_ne s _ m (by rw [hcur]; exact hmx)
+  have sBx : sB.nodeAt x = { s.nodeAt x with frameBuf := reqFrame fid i 0 } := by
+    have : sB.nodeAt x = sB.node := by rw [node_eq_nodeAt, sBcur]
+    rw [this, ← hsB, withFrame_node s _ sc, snode]
+  have sBrad : ∀ k, sB.radioAt k = s.radioAt k := by intro k; rw [← hsB]; exact radioAt_withFrame s _ k
+  have sBrid : ∀ k, sB.ridAt k = s.ridAt k := by
+    intro k; show (sB.nodeAt k).rf.rid = _; rw [← hsB, rf_withFrame]; rfl
+  obtain ⟨sW, s3, eW, eN, c3, a3, n3, cl3, fl3, bx3, bm3, Nm3, Nx3, fm3, fx3, rm3, rx3, q1, q2, lrm, lrx⟩ :=
+    leg_request2 (200000 - 7 - m) (200000 - 2) sB L Pm Px m x i a fid Am Ax pq pq'
+      (by rw [← hsB]; simpa using hlen) hm hx hmx sBcur (by rw [← hsB]; exact hact) (by rw [← hsB]; exact hclosed)
+      (by rw [← hsB]; exact hfaults) (by omega) (by omega)
+      (by rw [sBrid, ← hsB]; exact hridm) (by rw [sBrid, ← hsB]; exact hridx)
+      (by rw [sBrid, sBrid]; exact hridne)
+      (by rw [sBm, sBrad]; exact hNm) (by rw [sBx, sBrad]; exact hNx)
+      (by rw [sBrad]; exact hfm) (by rw [sBrad]; exact hfx)
+      (by intro pid; rw [sBrad]; exact hdupm pid) (by intro pid; rw [sBrad]; exact hdupx pid)
+      (by rw [sBm]; exact harrm) (by rw [sBx]; exact harrx)
+      hAm hAx (by rw [sBx]) (by rw [sBx]; exact hxaddr) (by rw [sBx]; exact hxret) (by rw [sBx]; exact hxcfg)
+      (by rw [sBm]; exact hkind) (by rw [sBm]; exact hid) (by rw [sBm]; exact hmaddr) (by rw [sBm]; exact hmret)
+      (by rw [sBm]; exact hdo) (by rw [sBm]; exact hmcfg) (by rw [sBm]; exact hfind) ha hi0 hi hfid hpq hpq'
+  refine ⟨sW, s3, ?_, ?_, ⟨c3, a3, n3, cl3, fl3, ?_, ?_, Nm3, Nx3, fm3, fx3, ?_, ?_, ⟨q1, Am, pq, hAm, hpq, lrm⟩,
+    ⟨q2, Ax, pq', hAx, hpq', lrx⟩⟩⟩
+  · rw [hF]; exact eW
+  · rw [hF, show (200000 : Nat) = 200000 - 7 - m + 7 + m from by omega]; exact eN
+  · rw [bx3, sBx]; rfl
+  · rw [bm3, sBm]
+  · rw [rm3, sBrid]
+  · rw [rx3, sBrid]
+
+/-- the control flow of `requestLoop [0] none` (the body of `_request_address` for the single contact 0)
+    along one run: request written, response accepted (type 128, own ID, any address lies below contact
+    0), `_begin(a)`, first double-check lookup returns the ID ⇒ `True` -/
+theorem request_loop_flow (s2 sW s3 s4 s5 : NetState) (fid i a : Nat) (ha : a < 65536)
+    (hfid : s2.node.frameBuf.header.frameId = fid) (hid : s2.node.nodeId = i)
+    (eW : nexec (nodeWrite F 0 TX_PHYSICAL) (s2.withFrame (reqFrame fid i 0)) = (.ok true, sW))
+    (eN : nexec (netUpdate F 0) sW = (.ok MESH_ADDR_RESPONSE, s3))
+    (s3fb : s3.node.frameBuf = respFrame fid i a) (s3id : s3.node.nodeId = i)
+    (eB : nexec (begin a) s3 = (.ok (), s4)) (hb1 : s4.node.a.addr = a) (hb2 : s4.node.nodeId = i)
+    (eC : nexec (meshLookupNodeId (some (a : Int))) s4 = (.ok (i : Int), s5)) :
+    nexec (requestLoop [0] none) s2 = (.ok true, s5) := by
+  have hF : F = 200000 := rfl
   rw [requestLoop.eq_2, nexec_bind, nexec_getNode]
   simp only []
   rw [nexec_bind, nexec_setHdr]
@@ -574,11 +608,11 @@ theorem request_address_partial (s : NetState) (L : LinkCfg) (Pm Px : List Bytes
   have hst : (s2.setNode fun n => { n with frameBuf := { n.frameBuf with header :=
         { (n.frameBuf.header.setTy MESH_ADDR_REQUEST) with toNode := 0, fromNode := NETWORK_DEFAULT_ADDR,
                                                              reserved := s2.node.nodeId } } }).setNode
-      (fun nd => { nd with frameBuf := { nd.frameBuf with message := [] } }) = sB := by
-    rw [← hsB, setNode_setNode]
+      (fun nd => { nd with frameBuf := { nd.frameBuf with message := [] } }) = s2.withFrame (reqFrame fid i 0) := by
+    rw [setNode_setNode]
     unfold NetState.withFrame
     apply setNode_congr
-    simp only [Function.comp, Header.setTy, reqFrame, s2fb, s2id, pollReply]
+    simp only [Function.comp, Header.setTy, reqFrame, hfid, hid]
   rw [hst, nexec_bind, eW]
   simp only []
   rw [nexec_bind, nexec_nowNs]
@@ -608,5 +642,120 @@ theorem request_address_partial (s : NetState) (L : LinkCfg) (Pm Px : List Bytes
   have hfin : ¬ ((i : Int) ≠ (s4.node.nodeId : Int)) := by rw [hb2]; simp
   rw [nexec_ite, if_neg hfin]
   rfl
+
+/-- **The contact loop of `_request_address` for the single contact 0** (`requestLoop [0] none`, from the
+    state after `_make_contact`): frames 3–4 proved (`frames_3_4`), the control flow proved
+    (`request_loop_flow`), the two remaining legs as hypotheses **about the one state this run produces**:
+    `Hb` — on the state `s3` the request write and the next `_net_update()` of *this* run end in,
+    `_begin(a)` ends normally with address attribute `a` and the ID kept (`P4` = whatever else is
+    recorded about the state it ends in); `Hc` — the double-check `lookup_node_id(a)` from a state
+    satisfying `P4` returns the ID (`P5`).  `sW`, `s3` are determined by `s` (the model is a function):
+    with `P4 := (· = the state _begin ends in)` both hypotheses speak about exactly one state each. -/
+theorem request_loop_partial (s : NetState) (L : LinkCfg) (Pm Px : List Bytes) (m x fid i a : Nat)
+    (Am Ax pq pq' : Bytes) (P4 P5 : NetState → Prop)
+    (hlen : s.nodes.length = 2) (hm : m < 2) (hx : x < 2) (hmx : m ≠ x)
+    (hcur : s.cur = x) (hact : s.active = [x]) (hclosed : s.closed = true) (hfaults : s.w.faults = [])
+    (hridm : s.ridAt m < s.w.radios.length) (hridx : s.ridAt x < s.w.radios.length)
+    (hridne : s.ridAt m ≠ s.ridAt x)
+    (hNm : NodeRadio L Pm true true 0x3E (s.nodeAt m).rf (s.radioAt m))
+    (hNx : NodeRadio L Px true true 0x3E (s.nodeAt x).rf (s.radioAt x))
+    (hfm : (s.radioAt m).rxFifo = []) (hfx : (s.radioAt x).rxFifo = [])
+    (hdupm : ∀ pid, (s.radioAt m).lastRx ≠ some { pid := pid, addr := Am, data := pq })
+    (hdupx : ∀ pid, (s.radioAt x).lastRx ≠ some { pid := pid, addr := Ax, data := pq' })
+    (harrm : (s.nodeAt m).arrivals = []) (harrx : (s.nodeAt x).arrivals = [])
+    (hAm : Pm[0]? = some Am) (hAx : Px[0]? = some Ax)
+    (hxfid : (s.nodeAt x).frameBuf.header.frameId = fid) (hxid : (s.nodeAt x).nodeId = i)
+    (hxaddr : (s.nodeAt x).a.addr = NETWORK_DEFAULT_ADDR)
+    (hxret : (s.nodeAt x).retSysMsg = true) (hxcfg : pipeAddress (s.nodeAt x).cfg 0 0 = .ok Am)
+    (hkind : (s.nodeAt m).kind = .meshMaster) (hid : (s.nodeAt m).nodeId = 0) (hmaddr : (s.nodeAt m).a.addr = 0)
+    (hmret : (s.nodeAt m).retSysMsg = true) (hdo : (s.nodeAt m).doDhcp = false)
+    (hmcfg : pipeAddress (s.nodeAt m).cfg NETWORK_DEFAULT_ADDR 0 = .ok Ax)
+    (hfind : dhcpFind (s.nodeAt m).dhcp i 0 0 (Mesh.MESH_MAX_CHILDREN + 1) = some a) (ha : a < 65536)
+    (hi0 : i ≠ 0) (hi : i ≤ 255) (hfid : fid < 65536)
+    (hpq : (reqFrame fid i 0).pack = .ok pq) (hpq' : (respFrame fid i a).pack = .ok pq')
+    (Hb : ∀ sW s3, nexec (nodeWrite F 0 TX_PHYSICAL) (s.withFrame (reqFrame fid i 0)) = (.ok true, sW) →
+      nexec (netUpdate F 0) sW = (.ok MESH_ADDR_RESPONSE, s3) → AfterRequest s L Pm Px m x fid i a s3 →
+      ∃ s4, nexec (begin a) s3 = (.ok (), s4) ∧ s4.node.a.addr = a ∧ s4.node.nodeId = i ∧ P4 s4)
+    (Hc : ∀ s4, P4 s4 → ∃ s5, nexec (meshLookupNodeId (some (a : Int))) s4 = (.ok (i : Int), s5) ∧ P5 s5) :
+    ∃ s5, nexec (requestLoop [0] none) s = (.ok true, s5) ∧ P5 s5 := by
+  obtain ⟨sW, s3, eW, eN, hAR⟩ := frames_3_4 s L Pm Px m x fid i a Am Ax pq pq'
+    hlen hm hx hmx hcur hact hclosed hfaults hridm hridx hridne hNm hNx hfm hfx hdupm hdupx harrm harrx hAm hAx
+    hxaddr hxret hxcfg hkind hid hmaddr hmret hdo hmcfg hfind ha hi0 hi hfid hpq hpq'
+  obtain ⟨s4, eB, hb1, hb2, hP4⟩ := Hb sW s3 eW eN hAR
+  obtain ⟨s5, eC, hP5⟩ := Hc s4 hP4
+  have snode : s.node = s.nodeAt x := by rw [node_eq_nodeAt, hcur]
+  have s3node : s3.node = s3.nodeAt x := by rw [node_eq_nodeAt, hAR.cur]
+  have s3fb : s3.node.frameBuf = respFrame fid i a := by
+    have : s3.node.frameBuf = (s3.nodeAt x).body.frameBuf := by rw [s3node]; rfl
+    rw [this, hAR.joiner]
+  have s3id : s3.node.nodeId = i := by
+    have : s3.node.nodeId = (s3.nodeAt x).body.nodeId := by rw [s3node]; rfl
+    rw [this, hAR.joiner]; exact hxid
+  exact ⟨s5, request_loop_flow s sW s3 s4 s5 fid i a ha (by rw [snode]; exact hxfid) (by rw [snode]; exact hxid)
+    eW eN s3fb s3id eB hb1 hb2 eC, hP5⟩
+
+/-- **`_request_address(0)` of a direct join**, frames 1–4 proved (`leg_poll`, `leg_request2`), the two
+    remaining legs as hypotheses **about the one state this run produces** (`s2`, `sW`, `s3` are
+    determined by `s`): `Hb` — `_begin(a)` from the state after the response ends normally, sets the
+    address attribute and leaves the ID (`P4` = whatever else is recorded about the state it ends in);
+    `Hc` — the double-check `lookup_node_id(a)` from a state satisfying `P4` returns the ID (`P5`).  Then
+    `_request_address(0)` returns `True` in a state satisfying `P5`. -/
+theorem request_address_partial (s : NetState) (L : LinkCfg) (Pm Px : List Bytes) (m x fid r i a : Nat)
+    (Am Ax pk pk' pq pq' : Bytes) (P4 P5 : NetState → Prop)
+    (hlen : s.nodes.length = 2) (hm : m < 2) (hx : x < 2) (hmx : m ≠ x)
+    (hcur : s.cur = x) (hact : s.active = [x]) (hclosed : s.closed = true) (hfaults : s.w.faults = [])
+    (hridm : s.ridAt m < s.w.radios.length) (hridx : s.ridAt x < s.w.radios.length)
+    (hridne : s.ridAt m ≠ s.ridAt x)
+    (hNm : NodeRadio L Pm true true 0x3E (s.nodeAt m).rf (s.radioAt m))
+    (hNx : NodeRadio L Px true true 0x3E (s.nodeAt x).rf (s.radioAt x))
+    (hfm : (s.radioAt m).rxFifo = []) (hfx : (s.radioAt x).rxFifo = [])
+    (hdupm : ∀ pid, (s.radioAt m).lastRx ≠ some { pid := pid, addr := Am, data := pk })
+    (hdupx : ∀ pid, (s.radioAt x).lastRx ≠ some { pid := pid, addr := Ax, data := pk' })
+    (harrm : (s.nodeAt m).arrivals = []) (harrx : (s.nodeAt x).arrivals = [])
+    (hAm : Pm[0]? = some Am) (hAx : Px[0]? = some Ax)
+    (hxfid : (s.nodeAt x).frameBuf.header.frameId = fid) (hxres : (s.nodeAt x).frameBuf.header.reserved = r)
+    (hxid : (s.nodeAt x).nodeId = i)
+    (hxaddr : (s.nodeAt x).a.addr = NETWORK_DEFAULT_ADDR)
+    (hxret : (s.nodeAt x).retSysMsg = true) (hxcfg : pipeAddress (s.nodeAt x).cfg 0 0 = .ok Am)
+    (hkind : (s.nodeAt m).kind = .meshMaster) (hid : (s.nodeAt m).nodeId = 0) (hmaddr : (s.nodeAt m).a.addr = 0)
+    (hmret : (s.nodeAt m).retSysMsg = true)
+    (hmmc : (s.nodeAt m).cfg.allowMulticast = true) (hmpar : (s.nodeAt m).parenthood = true)
+    (hdo : (s.nodeAt m).doDhcp = false)
+    (hmcfg : pipeAddress (s.nodeAt m).cfg NETWORK_DEFAULT_ADDR 0 = .ok Ax)
+    (hfind : dhcpFind (s.nodeAt m).dhcp i 0 0 (Mesh.MESH_MAX_CHILDREN + 1) = some a) (ha : a < 65536)
+    (hr : r ≤ 255) (hfid : fid < 65536) (hi0 : i ≠ 0) (hi : i ≤ 255)
+    (hpk : (pollFrame fid r).pack = .ok pk) (hpk' : (pollReply fid r 0).pack = .ok pk')
+    (hpq : (reqFrame fid i 0).pack = .ok pq) (hpq' : (respFrame fid i a).pack = .ok pq')
+    (Hb : ∀ s2 sW s3, nexec (makeContact 0) s = (.ok [0], s2) →
+      nexec (nodeWrite F 0 TX_PHYSICAL) (s2.withFrame (reqFrame fid i 0)) = (.ok true, sW) →
+      nexec (netUpdate F 0) sW = (.ok MESH_ADDR_RESPONSE, s3) → AfterRequest s L Pm Px m x fid i a s3 →
+      ∃ s4, nexec (begin a) s3 = (.ok (), s4) ∧ s4.node.a.addr = a ∧ s4.node.nodeId = i ∧ P4 s4)
+    (Hc : ∀ s4, P4 s4 → ∃ s5, nexec (meshLookupNodeId (some (a : Int))) s4 = (.ok (i : Int), s5) ∧ P5 s5) :
+    ∃ s5, nexec (requestAddress 0) s = (.ok true, s5) ∧ P5 s5 := by
+  obtain ⟨s2, sW, s3, eP, c2, n2, bx2, eW, eN, hAR⟩ := frames_1_4 s L Pm Px m x fid r i a Am Ax pk pk' pq pq'
+    hlen hm hx hmx hcur hact hclosed hfaults hridm hridx hridne hNm hNx hfm hfx hdupm hdupx harrm harrx hAm hAx
+    hxfid hxres hxid hxaddr hxret hxcfg hkind hid hmaddr hmret hmmc hmpar hdo hmcfg hfind ha hr hfid hi0 hi
+    hpk hpk' hpq hpq'
+  have s2node : s2.node = s2.nodeAt x := by rw [node_eq_nodeAt, c2]
+  have s2fb : s2.node.frameBuf = pollReply fid r 0 := by
+    have : s2.node.frameBuf = (s2.nodeAt x).body.frameBuf := by rw [s2node]; rfl
+    rw [this, bx2]
+  have s2id : s2.node.nodeId = i := by
+    have : s2.node.nodeId = (s2.nodeAt x).body.nodeId := by rw [s2node]; rfl
+    rw [this, bx2]; exact hxid
+  obtain ⟨s4, eB, hb1, hb2, hP4⟩ := Hb s2 sW s3 eP eW eN hAR
+  obtain ⟨s5, eC, hP5⟩ := Hc s4 hP4
+  have s3node : s3.node = s3.nodeAt x := by rw [node_eq_nodeAt, hAR.cur]
+  have s3fb : s3.node.frameBuf = respFrame fid i a := by
+    have : s3.node.frameBuf = (s3.nodeAt x).body.frameBuf := by rw [s3node]; rfl
+    rw [this, hAR.joiner]
+  have s3id : s3.node.nodeId = i := by
+    have : s3.node.nodeId = (s3.nodeAt x).body.nodeId := by rw [s3node]; rfl
+    rw [this, hAR.joiner]; exact hxid
+  refine ⟨s5, ?_, hP5⟩
+  unfold requestAddress
+  rw [nexec_bind, eP]
+  simp only [List.isEmpty_cons, Bool.false_eq_true, if_false]
+  exact request_loop_flow s2 sW s3 s4 s5 fid i a ha (by rw [s2fb]; rfl) s2id eW eN s3fb s3id eB hb1 hb2 eC
 
 end Nrf.Net.Join
